@@ -229,7 +229,7 @@ def run_instance(job):
             lem_params.update(lem.cfg["dynamic_params"](fixed))
 
         def body(path):
-            I = Interp(path, sources, registry, {k: v for k, v in lem.cfg.items() if k != 'dynamic_params'})
+            I = Interp(path, sources, registry, {**{k: v for k, v in lem.cfg.items() if k != 'dynamic_params'}, 'lemma_name': lem.fn.__name__})
             if lem.cfg.get("stubs"):
                 sm = {}
                 for owner, attr, repl in lem.cfg["stubs"]:
